@@ -125,7 +125,7 @@ def run(ctx):
         if "columns" in glob:
             ctx.oracle(hdr == glob["columns"], "C01.columns_requested", SITE, "header %r, requested %r" % (hdr, glob["columns"]), cs)
         else:
-            ctx.oracle(hdr[:3] == ["date", "longitude", "latitude"] and "depth" in hdr, "C01.columns_default", SITE, "header %r" % (hdr,), cs)
+            ctx.oracle(hdr[:4] == ["date", "longitude", "latitude", "depth"], "C01.columns_default", SITE, "header %r" % (hdr,), cs)
         if "grp" in res and "tag" in res and nrows == total:
             grp = np.array(res["grp"]); tag = np.array(res["tag"])
             for g, conf in enumerate(groups):
